@@ -11,6 +11,7 @@ import (
 	"reflect"
 	"sort"
 	"strings"
+	"time"
 
 	"github.com/gotd/td/bin"
 
@@ -69,6 +70,10 @@ func main() {
 		}
 		return
 	}
+	if len(os.Args) > 1 && os.Args[1] == "crash-child" {
+		crashChild(os.Args[2:])
+		return
+	}
 	os.Setenv("VERIF_C21_SCHEMA", schemaPath())
 	hc.Main(hc.Spec{Prop: "C21", Facts: facts, Run: run})
 }
@@ -93,7 +98,7 @@ func facts(f *hc.Facts) {
 		f.Missing("schemaCtors", "translator failed: "+err.Error())
 		return
 	}
-	nBad, nGeneric, makes, capped, withID := 0, 0, 0, 0, 0
+	nBad, nGeneric, makes, capped, withID, unchecked := 0, 0, 0, 0, 0, 0
 	var badNames []string
 	for _, c := range s.Ctors {
 		if c.Bad != "" {
@@ -108,12 +113,14 @@ func facts(f *hc.Facts) {
 		}
 		makes += c.Makes
 		capped += c.MakesCap
+		unchecked += c.GenericUnchecked
 	}
 	f.Nat("schemaCtors", len(s.Ctors), "generated structs with Encode/Decode/EncodeBare/DecodeBare in mt, tg/e2e, tg")
 	f.Nat("schemaCtorsWithID", withID, "... that have a XxxTypeID constant")
 	f.Nat("schemaIfaces", len(s.Ifaces), "generated DecodeXxx functions (interfaces)")
 	f.Nat("untranslated", nBad, "constructors whose generated code the translator did not understand / found inconsistent: "+strings.Join(badNames, "; "))
 	f.Nat("genericCtors", nGeneric, "constructors with a bin.Object field (not modelled)")
+	f.Nat("genericUnchecked", unchecked, "bin.Object fields that Encode/Decode dereference without a nil check")
 	f.Nat("doubleVectors", s.DoubleVectors, "fields decoded by the generator's double-vector loop")
 	f.Nat("vectorMakes", makes, "make( calls in DecodeBare bodies")
 	f.Nat("vectorMakesCapped", capped, "... of the form `if headerLen > 0 { x = make(T, 0, headerLen % bin.PreallocateLimit) }`")
@@ -183,6 +190,23 @@ func run(c *hc.Ctx) error {
 			c.Note("translator: %s.%s: %s", ct.Pkg, ct.GoName, ct.Bad)
 		}
 	}
+
+	// --- crash search (sub-process), started first so that it overlaps with the rest
+	cands := nestCandidates(w)
+	c.Note("self-nesting constructors (4 bytes per level): %d, e.g. %s", len(cands), candNames(cands, 6))
+	crashDone := make(chan struct{})
+	go func() {
+		defer close(crashDone)
+		if len(cands) == 0 {
+			return
+		}
+		// a depth that is harmless everywhere, then the depth of a full 10 MiB decompressed payload
+		crashSearch(c, cands[0], 10_000, 2*time.Minute)
+		if c.Thorough() {
+			crashSearch(c, cands[0], (10<<20)/4-1, 20*time.Minute)
+		}
+	}()
+	defer func() { <-crashDone }()
 
 	reps := c.N(2, 60)
 	junkPer := c.N(4, 40)
@@ -312,6 +336,17 @@ func run(c *hc.Ctx) error {
 		}
 	}
 	return nil
+}
+
+func candNames(cs []nestCand, n int) string {
+	var out []string
+	for i, x := range cs {
+		if i >= n {
+			break
+		}
+		out = append(out, x.outer.Pkg+"."+x.outer.GoName)
+	}
+	return strings.Join(out, ", ")
 }
 
 func bucket(n int) int {
